@@ -64,8 +64,13 @@ def _inplace(x):
   return x
 
 
+def _ident(x):
+  """Returns the very dict it was given."""
+  return x
+
+
 CHAINS = {'none': [], 'add': [_add], 'cast': [_cast], 'add_cast': [_add, _cast_z], 'cast_add': [_cast, _add],
-          'inplace': [_inplace]}
+          'inplace': [_inplace], 'ident_inplace': [_ident, _inplace]}
 
 
 def ref_processed(raw, chain):
@@ -80,7 +85,7 @@ def ref_processed(raw, chain):
   elif chain == 'cast_add':
     out['i'] = raw['i'].astype(np.int64) + 1
     out['z'] = out['i'] * 2 + 1
-  elif chain == 'inplace':
+  elif chain in ('inplace', 'ident_inplace'):
     out['z'] = raw['i'] * 2 + 1
     out['i'] = raw['i'].astype(np.int64) + 1
   return out
@@ -113,6 +118,9 @@ def run_case(case):
     snap = {k: np.ascontiguousarray(v).copy() for k, v in sel.items()}
   else:
     raw = make_raw(n, seed)
+    if case.get('clone') == 'pickle':
+      # numpy's own pickle support converts non-native byte orders to native: those features are left out here
+      raw = {k: v for k, v in raw.items() if k not in ('be', 'bf', 'st')}
     snap = {k: v.copy() for k, v in raw.items()}
     ds = fedjax.ClientDataset(raw, pre)
   want = ref_processed(snap, chain)
@@ -127,11 +135,22 @@ def run_case(case):
       view = ds.batch(cds.BatchHParams(batch_size=bs, drop_remainder=drop))
     else:
       view = ds.batch(batch_size=bs, drop_remainder=drop)
+  if case.get('clone'):
+    # the dataset / view objects go through copy.copy, copy.deepcopy or a pickle round trip before they are used
+    import copy
+    import pickle
+    cl = {'copy': copy.copy, 'deepcopy': copy.deepcopy, 'pickle': lambda o: pickle.loads(pickle.dumps(o))}[case['clone']]
+    ds2 = cl(ds)
+    require(len(ds2) == len(ds), 'a cloned dataset reports another size', len(ds), len(ds2))
+    view = cl(view)
+    ds_for_b = ds2
+  else:
+    ds_for_b = ds
   # a view whose very FIRST iteration is abandoned after one batch, then iterated fully several times
   if mode == 'padded':
-    view_b = ds.padded_batch(batch_size=bs, num_batch_size_buckets=buckets)
+    view_b = ds_for_b.padded_batch(batch_size=bs, num_batch_size_buckets=buckets)
   else:
-    view_b = ds.batch(batch_size=bs, drop_remainder=(mode == 'plain_drop'))
+    view_b = ds_for_b.batch(batch_size=bs, drop_remainder=(mode == 'plain_drop'))
   itb = iter(view_b)
   next(itb, None)
   del itb
@@ -269,6 +288,9 @@ def plan(ctx):
           for mode in ('plain_keep', 'plain_drop'):
             yield {'N': n, 'B': bs, 'buckets': 1, 'mode': mode, 'chain': chain, 'hp': hp, 'seed': ctx.seed}
   ctx.run('seq', gen(), reverse_pass=True)
+  ctx.run('seq', [{'N': n, 'B': bs, 'buckets': k, 'mode': m, 'chain': ch, 'seed': ctx.seed, 'clone': cl}
+                  for cl in ('copy', 'deepcopy', 'pickle') for n in (0, 1, 5, 7) for bs in (1, 2, 4) for ch in ('none', 'cast_add', 'inplace')
+                  for m, k in (('padded', 2), ('plain_keep', 1), ('plain_drop', 1))])
   from mc.checks.c04_shuffle_batching import VIAS
   ctx.run('seq', [{'N': -1, 'via': via, 'B': bs, 'buckets': k, 'mode': mode, 'chain': chain, 'seed': ctx.seed}
                   for via in VIAS for bs in (1, 2, 3, 4, 5) for chain in ('none', 'cast_add')
